@@ -61,3 +61,15 @@ Example C14_export_import_example :
   let s := after keccak_bytes s0 [7%N; 255%N] in
   server_okb s = true /\ server_from_bincode (server_to_bincode s) = Some s /\ length (gPunctured bytes (sv_ggm s)) = 2%nat.
 Proof. vm_compute. repeat split. Qed.
+
+(* ... and the premise holds of EVERY state a server can reach: created with a canonical key, a well-formed public
+   key and 32-byte PRG keys and seeds, then any sequence of punctures (fewer than 2^60 of them) - so export + import
+   is the identity at every point of every history, with no run-time premise left *)
+From StarV Require Import PpFacts SrvInv.
+Theorem C14_export_import_reachable : forall (F : list N -> list N) (s0 : server) (seed0 seed1 : bytes) (h : list N) (rest : bytes),
+  0 <= sv_key s0 < ell -> pk_wf (sv_pk s0) ->
+  length (sv_k0 s0) = 32%nat -> length (sv_k1 s0) = 32%nat ->
+  sv_ggm s0 = ginit bytes seed0 seed1 -> length seed0 = 32%nat -> length seed1 = 32%nat ->
+  (N.of_nat (length h) < 1152921504606846976)%N ->
+  server_from_bincode (server_to_bincode (after F s0 h) ++ rest) = Some (after F s0 h).
+Proof. exact export_import_reachable. Qed.
